@@ -28,7 +28,7 @@ RULE = ("cases: (graph, data sizes, n form, seed).  distinct = distinct canonica
         ' Also: graphs with 9-12 variables, numpy-integer seeds, Fortran-ordered data, the caller overwriting his data after construction.')
 ASSUMPTIONS = ["stand-in backend behind the rpy2 interface (no R in the sandbox)"]
 EXHAUSTIVE = {"quick": False, "thorough": False}
-SOFT_LIMIT = {"quick": 240, "thorough": 1500}
+SOFT_LIMIT = {"quick": 1200, "thorough": 5400}      # generous wall-clock watchdogs (a loaded machine must not cut a workload short); normal run times are in the evidence
 REQUIRED_FUNCS = ["sempler/semi.py:DRFNet.__init__", "sempler/semi.py:DRFNet.sample"]      # the backend side is observed through the stand-in's own fit / query log
 REQUIRED_COUNTERS = {"quick": {"sample-calls": 600, "queries-checked": 1000, "fits-checked": 500, "independence-asserted": 100, "forest-draws-independence-asserted": 300, "bootstrap:rows-judged": 500,
                                "repro:seeded-pairs": 200, "repro:seed0": 20, "errors:raised-as-documented": 400, "n:list": 50, "n:int": 50, "n:None": 50},
